@@ -41,7 +41,7 @@ from engine.core import MachineryError, digest
 
 APP_CT = 'application/json; c05=app'      # the application's own type; resolvable by the media handlers
 BODILESS_CODES = (100, 101, 204, 304)
-SPEC_ACTIONS = ['SendStart', 'SendBody', 'SendEmpty', 'StreamRead', 'StreamSendChunk', 'CloseStream', 'Eof',
+SPEC_ACTIONS = ['RenderFails', 'SendStart', 'SendBody', 'SendEmpty', 'StreamRead', 'StreamSendChunk', 'CloseStream', 'Eof',
                 'SseNext', 'SseSend']
 VARIANTS = [{'custom': cu, 'extra': ex, 'via': via} for cu in (False, True) for ex in (False, True)
             for via in ('responder', 'mw_request', 'mw_response')]
@@ -49,6 +49,27 @@ VARIANTS = [{'custom': cu, 'extra': ex, 'via': via} for cu in (False, True) for 
 
 class StreamFault(Exception):
     """Injected failure of the application's stream / emitter."""
+
+
+class RenderFault(Exception):
+    """Injected failure of body rendering (render-phase fault)."""
+
+
+class HandledRenderFault(RenderFault):
+    """Render-phase fault for which the application registered its own error handler."""
+
+
+class RaisingMedia(dict):
+    """resp.media value the JSON handler cannot serialise: iterating it raises (and tells the log)."""
+
+    def __init__(self, log, exc):
+        dict.__init__(self, a=1)
+        self._log, self._exc = log, exc
+
+    def _boom(self, *a, **k):
+        self._log.renderFailed = True
+        raise self._exc('injected: media cannot be serialised')
+    items = keys = values = __iter__ = _boom
 
 
 # ------------------------------------------------------------------------------------------------
@@ -138,6 +159,7 @@ class Log:
         self.closes = 0
         self.raised = False
         self.reads = 0
+        self.renderFailed = False
 
 
 class _Base:
@@ -317,8 +339,13 @@ def fill(resp, is_asgi):
         steps.append(lambda: setattr(resp, 'text', text_payload(case['text'])))
     if case['data'] >= 0:
         steps.append(lambda: setattr(resp, 'data', data_payload(case['data'])))
+    render_media = case['fk'] == 'render' and var.get('render_mode') == 'media'
+    if render_media and not (case['text'] < 0 and case['data'] < 0 and case['media'] >= 0):
+        raise MachineryError('render fault through the media needs a case in which the media is rendered')
     if case['media'] >= 0:
-        steps.append(lambda: setattr(resp, 'media', media_payload(case['media'])))
+        media = RaisingMedia(log, HandledRenderFault if var.get('err_handler') else RenderFault) if render_media \
+            else media_payload(case['media'])
+        steps.append(lambda: setattr(resp, 'media', media))
     if is_asgi and case['sse'] >= 0:
         steps.append(lambda: setattr(resp, 'sse', sse_emitter(case['sse'], log, fail_at)))
     if var['extra']:
@@ -345,6 +372,20 @@ def _permute(steps, order):
     return out + steps
 
 
+def _maybe_render_fault():
+    """render_body() of the custom response classes: raises when the current case schedules it"""
+    case, var = CUR['case'], CUR['variant']
+    if case['fk'] == 'render' and var.get('render_mode') != 'media':
+        CUR['log'].renderFailed = True
+        raise (HandledRenderFault if var.get('err_handler') else RenderFault)('injected: render_body raises')
+
+
+def _own_error_handler_fill(resp):
+    import falcon
+    resp.status = falcon.HTTP_503
+    resp.text = 'handled by the application'
+
+
 def get_app(iface, custom):
     import falcon
     import falcon.asgi
@@ -353,7 +394,9 @@ def get_app(iface, custom):
         return _APPS[key]
     if key[0] == 'wsgi':
         class CustomResponse(falcon.Response):
-            pass
+            def render_body(self):
+                _maybe_render_fault()
+                return super().render_body()
 
         class Res:
             def _any(self, req, resp):
@@ -374,9 +417,12 @@ def get_app(iface, custom):
         app = falcon.App(middleware=[Mw()], response_type=CustomResponse if custom else None) if custom \
             else falcon.App(middleware=[Mw()])
         app.add_route('/r', Res())
+        app.add_error_handler(HandledRenderFault, lambda req, resp, ex, params: _own_error_handler_fill(resp))
     else:
         class CustomAsgiResponse(falcon.asgi.Response):
-            pass
+            async def render_body(self):
+                _maybe_render_fault()
+                return await super().render_body()
 
         class ARes:
             async def _any(self, req, resp):
@@ -397,6 +443,10 @@ def get_app(iface, custom):
         inner = falcon.asgi.App(middleware=[AMw()], response_type=CustomAsgiResponse) if custom \
             else falcon.asgi.App(middleware=[AMw()])
         inner.add_route('/r', ARes())
+
+        async def own_handler(req, resp, ex, params):
+            _own_error_handler_fill(resp)
+        inner.add_error_handler(HandledRenderFault, own_handler)
 
         async def app(scope, receive, send):
             # a connected client: after the request body receive() blocks (the driver's own receive
@@ -437,6 +487,8 @@ def execute(case, variant):
     log = Log()
     CUR['case'], CUR['variant'], CUR['log'] = case, variant, log
     is_asgi = case['iface'] == 'asgi'
+    if case['fk'] == 'render' and variant.get('render_mode') != 'media' and not variant['custom']:
+        raise MachineryError('a render fault raised by render_body() needs the custom response class')
     app = get_app(case['iface'], variant['custom'])
     req = drivers.Req(method=case['method'], target=b'/r')
     ev = []
@@ -491,7 +543,8 @@ def execute(case, variant):
         if res.iterable is not None and res.exc is None and not res.extra.get('send_failed'):
             ev.append({'k': 'eof', 'n': 0, 'more': False, 'src': '', 'idx': -1, 'cl': -1, 'ct': ''})
     return {'c': case, 'ev': ev, 'pieces': pieces_of(res.body, case), 'begun': log.begun, 'closes': log.closes,
-            'raised': log.raised, 'sendFailed': bool(res.extra.get('send_failed')), 'exc': res.exc is not None,
+            'raised': log.raised, 'sendFailed': bool(res.extra.get('send_failed')), 'renderFailed': log.renderFailed,
+            'exc': res.exc is not None,
             'errors': len(res.errors),
             '_info': {'exc': repr(res.exc) if res.exc is not None else None, 'errors': res.errors[:3], 'status': res.status,
                       'headers': res.headers[:8], 'body': repr(res.body[:60]), 'hang': hang}}
@@ -501,19 +554,6 @@ def execute(case, variant):
 # verdict handling shared by the legs
 # ------------------------------------------------------------------------------------------------
 
-def signature(case, clause):
-    """Narrow structural description of the two reported defect candidates; None for anything else."""
-    if case['iface'] != 'asgi' and case['form'] == 'xline' and case['code'] in BODILESS_CODES:
-        # F13: the WSGI side recognises 100/101/204/304 only by the registry's status line
-        return {'iface': 'wsgi', 'status_form': 'line-with-own-reason-phrase', 'status_code_bodiless': True,
-                'clause': clause}
-    if clause == 'TypelessHaveNoFrameworkType' and case['code'] in (204, 304) and not case['ct'] \
-            and case['text'] < 0 and case['data'] < 0 and case['media'] >= 0:
-        # F9: rendering resp.media stores the default media type in the response headers
-        return {'status_typeless': True, 'rendered_source': 'media', 'app_content_type': False, 'clause': clause}
-    return None
-
-
 def nontrivial(case):
     nsrc = sum(1 for k in ('text', 'data', 'media', 'sse') if case[k] >= 0) + (case['stream'] != 'none')
     return nsrc >= 2 or case['method'] == 'HEAD' or case['code'] in BODILESS_CODES or case['fk'] != 'none'
@@ -521,83 +561,101 @@ def nontrivial(case):
 
 def report(ctx, clause, case, variant, obs, what):
     rec = {'case': case, 'variant': variant, 'observed': {k: v for k, v in obs.items() if k != 'c'}}
-    ctx.violation(clause, rec, what, signature=signature(case, clause))
+    ctx.violation(clause, rec, what)
 
 
-def compare_with_behaviour(ctx, b, variant, obs):
-    """Leg A: what the specification says for this case (b, computed by TLC) vs what the code did."""
+def compare_with_behaviour(b, obs):
+    """Leg A: what the specification says for this case (b, computed by TLC) vs what the code did.
+    Returns (P, D): failed property clauses [(clause, what)] and model-detail mismatches [(clause, what)]."""
     case = b['c']
     faulted_spec = b['raised'] or b['sendFailed']
     faulted = obs['raised'] or obs['sendFailed']
     info = obs['_info']
     spec_ev = [{'k': e[0], 'n': e[1], 'more': e[2], 'src': e[3], 'idx': e[4]} for e in b['ev']]
     spec_pieces = [[e['src'], e['idx']] for e in spec_ev if e['k'] == 'body' and e['n'] > 0]
-    spec_bytes = sum(e['n'] for e in spec_ev if e['k'] == 'body')
     got_bytes = sum(e['n'] for e in obs['ev'] if e['k'] == 'body')
     nstart = sum(1 for e in obs['ev'] if e['k'] == 'start')
     bad, notes = [], []
 
     def P(clause, what):
-        bad.append(clause)
-        report(ctx, clause, case, variant, obs, what)
+        bad.append((clause, what))
 
     if obs['exc'] and not faulted:
-        P('Exception', 'no fault injected but %s reached the server' % info['exc'])
-        return bad
+        P('Exception', 'no stream/send fault injected but %s reached the server' % info['exc'])
+        return bad, notes
+    if obs['renderFailed'] != (case['fk'] == 'render'):
+        P('Precedence', 'render-phase fault scheduled=%r but body rendering %s' % (
+            case['fk'] == 'render', 'raised' if obs['renderFailed'] else 'never reached the failing source'))
+        return bad, notes
     if faulted != faulted_spec:
         # the scheduled fault point was (not) reached: the emission took other steps than the specification's
         P('Precedence', 'fault point %s/%d %s in the specification but %s in the code'
           % (case['fk'], case['fa'], 'fires' if faulted_spec else 'is never reached',
              'fired' if faulted else 'was never reached'))
-        return bad
+        return bad, notes
     if obs['errors']:
         P('Protocol', 'protocol monitor: %s' % info['errors'])
     if nstart != sum(1 for e in spec_ev if e['k'] == 'start') or (obs['ev'] and obs['ev'][0]['k'] != 'start'):
         P('ExactlyOneStart', '%d response starts' % nstart)
     complete = not faulted
+    bodiless_flagged = False
     if complete:
-        if obs['pieces'] != b['full']:
-            P('Precedence' if not (b['bodiless'] and obs['pieces']) else 'BodilessHaveNoBytes',
+        if b['precreq'] and obs['pieces'] != b['full']:
+            bodiless_flagged = bool(b['bodiless'] and obs['pieces'])
+            P('BodilessHaveNoBytes' if bodiless_flagged else 'Precedence',
               'body consists of %r, the chosen source %r prescribes %r' % (obs['pieces'], b['chosen'], b['full']))
         fin = [i for i, e in enumerate(obs['ev']) if e['k'] == 'eof' or (e['k'] == 'body' and not e['more'])]
         if fin != [len(obs['ev']) - 1]:
             P('OnlyLastHasNoMoreBody', 'final events at positions %r of %d' % (fin, len(obs['ev'])))
-    elif obs['pieces'] != b['full'][:len(obs['pieces'])]:
+    elif b['precreq'] and obs['pieces'] != b['full'][:len(obs['pieces'])]:
         P('Precedence', 'body prefix %r is not a prefix of %r' % (obs['pieces'], b['full']))
-    if b['bodiless'] and got_bytes != 0 and 'BodilessHaveNoBytes' not in bad:
+    if b['bodiless'] and got_bytes != 0 and not bodiless_flagged:
         P('BodilessHaveNoBytes', '%d body bytes' % got_bytes)
     if nstart == 1:
         st = obs['ev'][0]
         if complete and b['lenreq'] and st['cl'] != got_bytes:
-            P('LengthConsistent', 'Content-Length %r (-1 = absent) but %d body bytes were sent' % (st['cl'], got_bytes))
+            P('LengthConsistent', 'Content-Length %r (-1 = absent) but %d body bytes were sent (status %r)'
+              % (st['cl'], got_bytes, info['status']))
+        elif st['cl'] != b['cl']:
+            notes.append(('D:content_length', '%r, specification %r' % (st['cl'], b['cl'])))
         if st['ct'] != b['ct']:
             if b['typeless'] and st['ct'] == 'fw':
                 P('TypelessHaveNoFrameworkType', 'status %d carries a framework-supplied Content-Type %r'
-                  % (case['code'], [v for k, v in info['headers'] if k == 'content-type']))
+                  % (b['eff']['code'], [v for k, v in info['headers'] if k == 'content-type']))
             elif not b['typeless'] and st['ct'] == 'none':
-                P('OthersHaveType', 'status %d without Content-Type' % case['code'])
+                P('OthersHaveType', 'status %r without Content-Type' % info['status'])
             else:
                 notes.append(('D:content_type', 'class %r, specification %r' % (st['ct'], b['ct'])))
-        if st['cl'] != b['cl'] and 'LengthConsistent' not in bad:
-            notes.append(('D:content_length', '%r, specification %r' % (st['cl'], b['cl'])))
+        if info['status'] != b['eff']['code']:
+            notes.append(('D:status', 'status %r, specification %r' % (info['status'], b['eff']['code'])))
     if obs['closes'] > 1 or (obs['begun'] and case['stream'] in ('iter', 'file') and obs['closes'] != 1):
         P('CloseExactlyOnceOnceBegun', 'stream begun=%r, close() calls=%d' % (obs['begun'], obs['closes']))
-    if bad or signature(case, '') is not None:
-        # the D-level comparison is only meaningful for a response that satisfies the property, and outside the
-        # domain of the reported deviations (there the design deliberately differs from the code)
-        return bad
-    for cl, what in notes:
-        ctx.detail(cl, case, what + '  case=' + json.dumps(case))
     # D-level: the exact event sequence (block boundaries, where the empty blocks are), begun / closes
     same_len = len(spec_ev) == len(obs['ev'])
     shape_spec = [(e['k'], e['more'], e['n'] if e['src'] != 'sse' else -1) for e in spec_ev]
     shape_got = [(e['k'], e['more'], e['n'] if (same_len and spec_ev[i]['src'] != 'sse') else -1)
                  for i, e in enumerate(obs['ev'])] if same_len else None
     if shape_spec != shape_got:
-        ctx.detail('D:events', case, 'events %r, specification %r  case=%s' % ([(e['k'], e['more'], e['n']) for e in obs['ev']], shape_spec, json.dumps(case)))
+        notes.append(('D:events', 'events %r, specification %r' % ([(e['k'], e['more'], e['n']) for e in obs['ev']], shape_spec)))
     elif obs['begun'] != b['begun'] or obs['closes'] != b['closes'] or obs['pieces'] != spec_pieces:
-        ctx.detail('D:stream', case, 'begun/closes/pieces %r/%r/%r, specification %r/%r/%r'
-                   % (obs['begun'], obs['closes'], obs['pieces'], b['begun'], b['closes'], spec_pieces))
+        notes.append(('D:stream', 'begun/closes/pieces %r/%r/%r, specification %r/%r/%r'
+                      % (obs['begun'], obs['closes'], obs['pieces'], b['begun'], b['closes'], spec_pieces)))
+    return bad, notes
+
+
+def check_against(ctx, bs, variant, obs):
+    """bs: the behaviours the specification has for this case (more than one only where the design leaves a
+    choice open: the fate of a stream after a render-phase fault).  The observation must satisfy the property
+    clauses under one of them; D-level mismatches are noted only if no behaviour matches exactly."""
+    results = [compare_with_behaviour(b, obs) for b in bs]
+    results.sort(key=lambda r: (len(r[0]), len(r[1])))
+    bad, notes = results[0]
+    case = bs[0]['c']
+    for clause, what in bad:
+        report(ctx, clause, case, variant, obs, what)
+    if not bad:           # the D-level comparison is only meaningful for a response that satisfies the property
+        for clause, what in notes:
+            ctx.detail(clause, case, what + '  case=' + json.dumps(case) + ' variant=' + json.dumps(variant))
     return bad
 
 
@@ -633,11 +691,31 @@ def random_case(rng):
         case['fk'], case['fa'] = 'stream', rng.randint(0, max(len(chunks), case['sse'], 0) + 1)
     elif t < 0.5:
         case['fk'], case['fa'] = 'send', rng.randint(0 if iface == 'asgi' else 1, len(chunks) + 3)
+    elif t < 0.65:
+        case['fk'], case['fa'] = 'render', 0
     variant = {'custom': rng.random() < 0.3, 'extra': rng.random() < 0.4,
                'via': rng.choice(('responder', 'responder', 'mw_request', 'mw_response')),
                'set_stream': rng.random() < 0.5, 'cl_header': rng.random() < 0.5, 'none_end': rng.random() < 0.3,
                'plain_list': rng.random() < 0.5, 'order': [rng.randrange(16) for _ in range(rng.randint(0, 10))]}
+    if case['fk'] == 'render':
+        render_variant(case, variant, rng.random() < 0.5)
+        variant['err_handler'] = rng.random() < 0.3          # the application's own handler takes the fault
     return case, variant
+
+
+def media_rendered(case):
+    return case['text'] < 0 and case['data'] < 0 and case['media'] >= 0
+
+
+def render_variant(case, variant, prefer_media):
+    """how the render-phase fault is raised: by the media (only where the media is rendered at all) or by
+    render_body() of the custom response class"""
+    if prefer_media and media_rendered(case):
+        variant['render_mode'] = 'media'
+    else:
+        variant['render_mode'] = 'class'
+        variant['custom'] = True
+    return variant
 
 
 def judge_and_report(ctx, items, workers=8):
@@ -681,9 +759,9 @@ def _run(ctx):
     ctx.require_coverage(r, SPEC_ACTIONS)
     ctx.exhaustive = True
     ctx.progress('leg M done: %d states' % r.distinct)
-    # vacuity: each named deviation of the code from the design must break its invariant
+    # vacuity: each wrong-design switch must break its invariant
     for sw, inv in (('RenderSetsType', 'TypelessHaveNoFrameworkType'), ('BodilessByLine', None),
-                    ('ForgetCloseOnFault', 'CloseExactlyOnceOnceBegun')):
+                    ('ForgetCloseOnFault', 'CloseExactlyOnceOnceBegun'), ('StaleLengthOnRenderFault', 'LengthConsistent')):
         rv = ctx.tlc('MC_ResponseEmit', 'MC_ResponseEmit_%s.cfg' % sw, workers=4, timeout=300, must_hold=False, count=False)
         if not rv.violated or (inv and rv.violated != inv):
             raise MachineryError('wrong-design switch %s: expected invariant %s to fail, TLC reported %r'
@@ -699,15 +777,21 @@ def _run(ctx):
     ctx.progress('leg A: %d behaviours exported' % len(behaviours))
     nvar = len(VARIANTS)
     replayed = 0
-    for i, b in enumerate(behaviours):
-        case = b['c']
+    by_case = {}
+    for b in behaviours:                  # > 1 behaviour per case only where the design leaves a choice open
+        by_case.setdefault(json.dumps(b['c'], sort_keys=True), []).append(b)
+    ctx.extra['spec_cases'] = len(by_case)
+    for i, bs in enumerate(by_case.values()):
+        case = bs[0]['c']
         # quick: one variant per case (rotating with the seed); thorough: three
         vs = [VARIANTS[(i + ctx.seed) % nvar]] if quick else \
             [VARIANTS[(i + ctx.seed + j * 5) % nvar] for j in range(3)]
-        for variant in vs:
+        for j, variant in enumerate(vs):
+            if case['fk'] == 'render':
+                variant = render_variant(case, dict(variant), (i + j + ctx.seed) % 2 == 0)
             obs = execute(case, variant)
             ctx.case({'case': case, 'variant': variant}, nontrivial=nontrivial(case), key=hash((repr(case), repr(variant))))
-            compare_with_behaviour(ctx, b, variant, obs)
+            check_against(ctx, bs, variant, obs)
             replayed += 1
     ctx.traces_validated += replayed
     ctx.extra['spec_behaviours'] = len(behaviours)
